@@ -369,6 +369,15 @@ def lab_run(task, spec, args):
     # uid-tagged side records (C18) ----------------------------------------------------------------------------
     task.logger.info(f'LABMSG uid={uid} n=1 task={full}')
     task.save_to_run_info({'lab_uid': uid, 'n': 1})
+    # a counter object recorded, updated and recorded again (each record shows the state at the moment it was added)
+    from collections import defaultdict as _dd
+    progress = _dd(int)
+    progress['lab_uid'] = uid
+    progress['done'] = 1
+    task.save_to_run_info(progress)
+    progress['done'] = 2
+    progress['more'] += 5
+    task.save_to_run_info(progress)
     if fault_kind == 'raise_after_log':
         _log_record(dict(rec, phase='fault'))
         raise LabFault(f'{full} fault raise_after_log uid={uid}')
